@@ -106,6 +106,16 @@ class ConnectionState:
         with suppress(Exception):
             await self.session.cleanup()
 
+    def close(self) -> None:
+        """Called when the connection has ended, for any reason. The selected
+        mailbox is given up explicitly: this object may stay referenced for a
+        while, e.g. by the traceback of a caught exception.
+
+        """
+        selected, self._selected = self._selected, None
+        if selected is not None:
+            selected.release()
+
     async def _login(self, creds: ServerCredentials) \
             -> SessionInterface:
         stack = connection_exit.get()
